@@ -93,7 +93,8 @@ def make_fixer(kind):
 _MSG = [
     (re.compile(r"^Duplicate column '(.*)' at position (\d+) in table", re.S), lambda m: ["dup", m.group(1), int(m.group(2))]),
     (re.compile(r"^Missing data in row (\d+) of table", re.S), lambda m: ["missing", int(m.group(1))]),
-    (re.compile(r"^Illegal value '.*' for unit '(\w+|-) ' in table", re.S), lambda m: ["illegal", m.group(1)]),
+    (re.compile(r"^Illegal value '(.*)' for unit '(\w+|-) ' in table", re.S),
+     lambda m: ["illegal", m.group(2), m.group(1)]),
 ]
 
 
@@ -216,7 +217,21 @@ DT_SPELL = ["2020-01-02", "2020-01-02 03:04:05", "2020-01-02T03:04:05.000006", "
             "2020-13-45", "-", "nan", "NaN", " NAN ", " - ", "", "abc", "x2020", "2020", "12:30", "2020-01-02T00:00:00Z",
             "2020-01-02 00:00:00+01:00", "99999999999999999999", "1e400", "0", "²", "٣", "2020-02-30", "2262-04-12",
             "1677-01-01", "0001-01-01", "1", "1.5", "9" * 40, "2020-01-02 25:00"]
-TEXT_SPELL = ["", "a", " a ", "-", "nan", "None", "**x", ":a", "k:", "1.5", "é µ", "a;b", "*", "x" * 30, " "]
+TEXT_SPELL = ["", "a", " a ", "-", "nan", "None", "**x", ":a", "k:", "1.5", "é µ", "a;b", "*", "x" * 30, " ", "a\x00b", "z\x00", "\x00"]
+
+
+def case_patterns(word):
+    """every upper/lower-case pattern of a word"""
+    import itertools
+    return ["".join(t) for t in itertools.product(*[(c.lower(), c.upper()) for c in word])]
+
+
+# "any letter case": all case patterns of the marker and boolean words, bare and padded
+NAN_CASES = case_patterns("nan") + [" " + w + "\t" for w in case_patterns("nan")]
+BOOL_CASES = case_patterns("true") + case_patterns("false") + [" " + w + " " for w in case_patterns("true")[3::5]]
+NUM_SPELL = NUM_SPELL + NAN_CASES
+DT_SPELL = DT_SPELL + NAN_CASES
+ONOFF_SPELL = ONOFF_SPELL + BOOL_CASES
 NATIVE = [None, 0, 1, 2, -3, 1.5, 0.0, -0.0, 1.0, float("nan"), float("inf"), True, False,
           datetime.datetime(2020, 1, 2), datetime.datetime(2020, 1, 2, 3, 4, 5, 6), datetime.date(2020, 1, 2),
           datetime.time(1, 2), 10 ** 20]
